@@ -257,6 +257,9 @@ def check_cont(case):
         inner.append(rect(transform=tf))
         obj.append(inner)
         obj.append(path(transform=tf, stroke="red", stroke_width=2.0))
+    if cont in ("rect", "path", "circle", "polyline", "line") and swf == int(swf):
+        # the same width assigned to the attribute as an int / as a Length in px (the types the attribute also takes)
+        obj.stroke_width = [int(swf), svg.Length("%dpx" % int(swf)), swf][int(kf * 2 + swf) % 3]
     what = "%s(stroke=%s, stroke_width=%s, scale(%s)).bbox(transformed=%s, with_stroke=%s)" % (cont, stroke, swf, kf, tr, ws)
     try:
         bb = obj.bbox(transformed=tr, with_stroke=ws)
